@@ -11,6 +11,7 @@ import DSV.Model.Create
 import DSV.Model.GcRun
 import DSV.Model.GcRace
 import DSV.Model.Reader
+import DSV.Model.CommitFault
 /-!
 Line-protocol driver: one request per line on stdin, one reply per line on stdout.
 First token selects the model function.  Imports only `DSV.Model.*` (core Lean), so it links natively.
@@ -789,6 +790,26 @@ def handleRd (args : List String) : String :=
       | _, _, _ => "bad-op"
   | _ => "bad-op"
 
+/-! #### commit under faults -/
+open DSV.CommitFault in
+def handleCf (args : List String) : String :=
+  match args with
+  | [b, st, cb, pt, k, w] =>
+      let bb : Option Backend := match b with | "local" => some .localFs | "s3cas" => some .s3cas | "s3nocas" => some .s3nocas | _ => none
+      let ss : Option Style := match st with | "ctx" => some .ctx | "explicit" => some .explicit | _ => none
+      let pp : Option Point := match pt with
+        | "preAppend" => some .preAppend | "pre" => some .preCommit | "flip" => some .flip | "release" => some .release
+        | "finish" => some .finish | _ => none
+      let kk : Option Kind := match k with | "exc" => some .exc | "exc-after" => some .excAfter | "kbd" => some .kbd | "exit" => some .kbd | _ => none
+      match bb, ss, pp, kk with
+      | some b', some s', some p', some k' =>
+          let r := outcome (cb = "1") b' s' p' k' (w = "1")
+          let o := match r.outcome with
+            | .ok => "ok" | .storageError => "raise:storage" | .interrupt => "raise:interrupt" | .ambiguous => "raise:AmbiguousCommitError"
+          s!"{o} flipped={if r.flipped then 1 else 0} deleted={if r.deleted then 1 else 0}"
+      | _, _, _, _ => "bad-op"
+  | _ => "bad-op"
+
 def handle (line : String) : String :=
   match splitWs line with
   | [] => "bad-op"
@@ -801,6 +822,7 @@ def handle (line : String) : String :=
     else if cmd = "gc.run" then handleGcRun args
     else if cmd = "gcrace.trace" then handleRace args
     else if cmd = "rd.get" then handleRd args
+    else if cmd = "cf.outcome" then handleCf args
     else if cmd.startsWith "gc." then handleGc cmd args
     else if cmd = "occ.trace" then handleOcc args
     else if cmd = "create.trace" then handleCreate args
